@@ -162,7 +162,8 @@ def run(ctx, focus, theorems_module, theorems, refuted, kinds=None, nrandom=(120
     atomicity of ConfigurePool their model relies on), no random histories, no theorem re-check"""
     ctx.cov["trusted_base"] = vf.TRUSTED_COMMON + [
         "harness fakes: client-go fake clientset as the API server (Create of an existing name / Update, Delete, Get of a missing "
-        "name fail and change nothing; an injected failure has no effect), informer events delivered on request through the "
+        "name fail and change nothing; an injected failure has no effect; a List/Get with resourceVersion 0 is answered from a "
+        "lagging watch cache = the store one history step earlier, harness/cmd/gh/yieldcli.go), informer events delivered on request through the "
         "verif hook; ConfigurePool/AllocateSpecificIP are modelled as atomic steps (DESIGN.md section 5)",
         "Go map iteration order enters the model as an oracle taken from the observed store calls; the model validates it"]
     ctx.assumptions += ["an administrator does not change a reserved object again before galaxy-ipam has seen the previous change",
